@@ -283,6 +283,15 @@ func decodeValue(dec valueDecoder, param string, sm *openapi3.SerializationMetho
 			}
 			// a branch without a type (constraints only) decodes to no value: keep what a typed branch gave
 			if v != nil {
+				// object branches each decode the members they declare: the value has all of them
+				if m, ok := v.(map[string]any); ok {
+					if prev, ok := value.(map[string]any); ok {
+						for k, x := range m {
+							prev[k] = x
+						}
+						continue
+					}
+				}
 				value = v
 			}
 		}
